@@ -172,7 +172,17 @@ impl Report {
         let wall = self.start.elapsed().as_secs_f64();
         let mut cov = self.coverage.clone();
         if !cov.contains_key("samples") {
-            cov.insert("samples".into(), J::Array(self.samples.clone()));
+            let mut samples = self.samples.clone();
+            if samples.is_empty() {
+                // a run cut short by violations: the witnesses are the samples
+                for v in self.violations.iter().take(3) {
+                    samples.push(json!({"violation": v.signature, "replay": v.replay}));
+                }
+            }
+            if samples.is_empty() {
+                samples.push(json!({"note": "no sample recorded"}));
+            }
+            cov.insert("samples".into(), J::Array(samples));
         }
         cov.insert("findings".into(), J::Array(finding_list));
         cov.insert("known_findings_matched".into(), J::from(known_hit));
